@@ -3,8 +3,12 @@
 package hopserver
 
 import (
+	"io/fs"
 	"net"
+	"os"
 
+	"hop.computer/hop/authgrants"
+	"hop.computer/hop/certs"
 	"hop.computer/hop/transport"
 )
 
@@ -26,4 +30,34 @@ func verifListenPacket(addr string) (verifPacketConn, error) {
 		return nil, err
 	}
 	return pc.(*net.UDPConn), nil
+}
+
+// ---- white-box access for the authorization checks (C05 / C07) ----
+
+// VerifSetFS installs an arbitrary file system (SetFSystem only takes fstest.MapFS).
+func (s *HopServer) VerifSetFS(f fs.FS) { s.fsystem = f }
+
+// VerifGrantState renders the grant map and the transport key set canonically.
+func (s *HopServer) VerifGrantState() string {
+	return s.agMap.VerifDump() + "|keys=" + s.keyStore.VerifDump()
+}
+
+// VerifSession is a hopSession without transport or muxer, for handler-level exploration.
+type VerifSession struct{ s *hopSession }
+
+func (s *HopServer) VerifNewSession(user string, viaGrant bool, actions []authgrants.Authgrant) *VerifSession {
+	return &VerifSession{&hopSession{server: s, user: user, usingAuthGrant: viaGrant, authorizedActions: actions, pty: make(chan *os.File, 1)}}
+}
+
+// CheckCmd is the gate startCodex applies to grant-admitted sessions.
+func (v *VerifSession) CheckCmd(cmd string, shell bool) error {
+	_, err := v.s.checkCmd(cmd, shell)
+	return err
+}
+
+func (v *VerifSession) Actions() int { return len(v.s.authorizedActions) }
+
+// CheckIntent is the target-side policy check for further grant issuing.
+func (v *VerifSession) CheckIntent(i authgrants.Intent, c *certs.Certificate) error {
+	return v.s.checkIntent(i, c)
 }
